@@ -128,7 +128,8 @@ func genScenario(t *rapid.T) scenario {
 		}
 
 		if rapid.Bool().Draw(t, "rwAdd") {
-			rw.Add = rapid.SampledFrom([]string{"/api", "/x/y", "/~u"}).Draw(t, "add")
+			// (the last ones contain characters which are not valid in an escaped path as they are)
+			rw.Add = rapid.SampledFrom([]string{"/api", "/x/y", "/~u", "/api", "/a%20b", "/pre{x}", "/p q", "/caf\u00e9"}).Draw(t, "add")
 		}
 
 		if rapid.Bool().Draw(t, "rwQuery") {
@@ -353,6 +354,14 @@ func TestForwardedRequestIsTheRewrittenRequest(t *testing.T) {
 		if wantPath == "" || wantPath[0] != '/' {
 			// a rewrite that leaves no absolute path: the request line is not defined by the statement
 			vkit.S.Label("dont_care:rewrite_leaves_relative_path")
+		} else if oddPrefix := s.Rewrite != nil && strings.ContainsAny(s.Rewrite.Add, "{ \u00e9"); oddPrefix {
+			// how the characters of such a prefix are spelled upstream is not dictated; everything else is: the same
+			// octets, and an encoded slash of the client stays an encoded slash
+			vkit.S.Label("add_path_prefix_with_characters_not_valid_in_an_escaped_path")
+
+			if exceptSlashes(gotPath) != exceptSlashes(wantPath) {
+				t.Fatalf("upstream path %q, expected %q up to the spelling of the added prefix (client sent %q)\n%s", gotPath, wantPath, s.RawPath, s)
+			}
 		} else if gotPath != wantPath {
 			t.Fatalf("upstream path %q, expected %q (client sent %q)\n%s", gotPath, wantPath, s.RawPath, s)
 		}
@@ -442,4 +451,24 @@ func TestForwardedRequestIsTheRewrittenRequest(t *testing.T) {
 			}
 		}
 	})
+}
+
+// exceptSlashes: the octets of a raw path, encoded slashes left encoded (in upper case hex).
+func exceptSlashes(s string) string {
+	b := []byte(s)
+	for i := 0; i+2 < len(b); i++ {
+		if b[i] == '%' {
+			b[i+1] = strings.ToUpper(string(b[i+1]))[0]
+			b[i+2] = strings.ToUpper(string(b[i+2]))[0]
+		}
+	}
+
+	parts := strings.Split(string(b), "%2F")
+	for i := range parts {
+		if u, err := url.PathUnescape(parts[i]); err == nil {
+			parts[i] = u
+		}
+	}
+
+	return strings.Join(parts, "%2F")
 }
